@@ -335,7 +335,7 @@ pub fn run(ctx: &Ctx) -> Report {
     let cases = ctx.tier.pick(32_000u32, 320_000u32);
     let mut total = run_shards(16, |shard| {
         let mut st = Stats::new();
-        let strat = prop_oneof![3 => chain_strategy(40), 1 => chain_strategy(300), 2 => (any::<bool>()).prop_flat_map(|f| gen::expr_over(resource_leaf(f), 6, 40, true))];
+        let strat = gen::related(prop_oneof![3 => chain_strategy(40), 1 => chain_strategy(300), 2 => (any::<bool>()).prop_flat_map(|f| gen::expr_over(resource_leaf(f), 6, 40, true))].boxed(), true);
         run_prop(&mut st, ctx.seed, "C11", shard as u64, cases / 16, &strat, judge, case_json);
         st
     });
